@@ -568,7 +568,7 @@ func genIOFaults(r *simrt.Rand, sc *SeqScn) {
 		f := simfs.Fault{Nth: 1 + r.Int(8)}
 		switch r.Pick([]int{30, 12, 10, 12, 5, 8, 8, 5, 5, 5}) {
 		case 0:
-			f.Op, f.Kind, f.Short = "File.WriteAt", "short", []int{0, 1, 2, 3, 7, 100, 1000, 4095, 4096, 4097}[r.Int(10)]
+			f.Op, f.Kind, f.Short = "File.WriteAt", []string{"short", "short", "shortok"}[r.Int(3)], []int{0, 1, 2, 3, 7, 100, 1000, 4095, 4096, 4097}[r.Int(10)]
 		case 1:
 			f.Op, f.Kind = "File.WriteAt", []string{"eio", "enospc"}[r.Int(2)]
 		case 2:
@@ -595,7 +595,7 @@ func genIOFaults(r *simrt.Rand, sc *SeqScn) {
 func init() {
 	Register(&Prop{
 		ID: "C01", Level: "exploration",
-		Rule:    "one case = one sequential history of 10-60 WRITE/READ/SETATTR(size)/CREATE/GETATTR ops on 1-3 files with offsets at 0, EOF-1, EOF, beyond EOF, page boundaries, 2^31, 2^32, near 2^63 and 2^64, counts 0,1,transfer size +-1 and larger, per-run TransferSize, attribute-cache TTL/size, think time (so cached attributes expire or not) and stream segmentation; oracle after every reply: byte-array (write-log) model equality for READ data/count/eof, WRITE count, and backend content == model; 35% of the cases are fault-injecting: 1-3 backend fault rules (EIO/ENOSPC/EACCES from OpenFile, WriteAt, ReadAt, Sync, Close, Truncate, Stat, Chtimes; short WriteAt that stores k < n bytes; short ReadAt) fire inside some request - only that request is judged by the relaxed clause (it may fail, a failed WRITE may leave payload[:k] at its offset and nothing else, a short read returns fewer correct bytes; a reply of NFS3_OK is still held to the exact model), the model is then re-read from the backend and every later operation is again judged exactly. non-trivial = >=1 WRITE crossing EOF or a hole, >=1 truncation and >=3 READs; distinct by event digest",
+		Rule:    "one case = one sequential history of 10-60 WRITE/READ/SETATTR(size)/CREATE/GETATTR ops on 1-3 files with offsets at 0, EOF-1, EOF, beyond EOF, page boundaries, 2^31, 2^32, near 2^63 and 2^64, counts 0,1,transfer size +-1 and larger, per-run TransferSize, attribute-cache TTL/size, think time (so cached attributes expire or not) and stream segmentation; oracle after every reply: byte-array (write-log) model equality for READ data/count/eof, WRITE count, and backend content == model; 35% of the cases are fault-injecting: 1-3 backend fault rules (EIO/ENOSPC/EACCES from OpenFile, WriteAt, ReadAt, Sync, Close, Truncate, Stat, Chtimes; short WriteAt that stores k < n bytes, with an error or - bending io.WriterAt's contract - without one; short ReadAt) fire inside some request - only that request is judged by the relaxed clause (it may fail, a failed WRITE may leave payload[:k] at its offset and nothing else, a short read returns fewer correct bytes; a reply of NFS3_OK is still held to the exact model), the model is then re-read from the backend and every later operation is again judged exactly. non-trivial = >=1 WRITE crossing EOF or a hole, >=1 truncation and >=3 READs; distinct by event digest",
 		Gen:     genC01,
 		New:     func() any { return &SeqScn{} },
 		Run:     runSeq("C01."),
@@ -1268,6 +1268,14 @@ func genC11(r *simrt.Rand, tier string) any {
 		}
 		sc.Ops = append(sc.Ops, op)
 	}
+	if r.Pct(25) {
+		// fault-injecting class: a backend error inside some request (not in the chown itself - a backend that
+		// cannot chown leaves the server nothing to enforce). Whatever a failing request does to recover, a
+		// caller that is not root never makes the backend record anybody else's ids.
+		for i, n := 0, 1+r.Int(2); i < n; i++ {
+			sc.Faults = append(sc.Faults, simfs.Fault{Op: []string{"Chtimes", "Chmod", "Lstat", "Stat", "Truncate", "File.Close"}[r.Int(6)], Nth: 1 + r.Int(12), Kind: "eio", Repeat: r.Pct(20)})
+		}
+	}
 	return sc
 }
 
@@ -1299,6 +1307,13 @@ func genC12(r *simrt.Rand, tier string) any {
 		// read-only switched on at runtime somewhere in the history
 		sc.UpdAt = 1 + r.Int(len(sc.Ops))
 		sc.UpdCfg = &SrvCfg{ReadOnly: true, TransferSize: sc.Cfg.TransferSize}
+	}
+	if r.Pct(20) {
+		// fault-injecting class: a SETATTR that fails half-way (chmod done, a later step fails) followed by a
+		// backend that cannot be examined (lstat fails from some point on). ACCESS may then fail; when it
+		// answers NFS3_OK the attributes it decided on must be the object's real ones.
+		sc.Faults = append(sc.Faults, simfs.Fault{Op: []string{"Chtimes", "Chown", "Stat"}[r.Int(3)], Nth: 1 + r.Int(4), Kind: "eio"})
+		sc.Faults = append(sc.Faults, simfs.Fault{Op: "Lstat", Nth: 10 + r.Int(60), Kind: "eio", Repeat: true})
 	}
 	return sc
 }
@@ -1441,9 +1456,9 @@ func seqProp(id, rule string, gen func(*simrt.Rand, string) any, owners ...strin
 func init() {
 	seqProp("C07", "one case = a sequential history of 10-40 name-taking calls (LOOKUP, CREATE in every mode, MKDIR, SYMLINK name and target, REMOVE, RMDIR, RENAME both names, MNT path, READLINK) whose names are drawn from all strings of length 1..4 over the adversarial alphabet {a . / \\ NUL space 0x80}, 255/256-byte names, long multi-component strings and escaping targets, over a random tree incl. a pre-existing escaping symlink (60%), or a C01-C04 workload (40%); monitor on every backend call of every operation: path absolute and normalized and equal to a handle's path or that path plus one validated component; no Symlink with absolute or '..' target; no READLINK reply with a relative '..' target; invalid names never succeed; non-trivial = at least one operation; distinct by event digest",
 		mixGen(genC07, 60, "C07"), "C07.")
-	seqProp("C11", "one case = a history of 8-28 CREATE/MKDIR/SYMLINK/SETATTR calls with sattr3 uid/gid set to foreign ids, issued under drawn credentials (boundary uids/gids, 0-16 aux gids, AUTH_NONE) and squash modes in mixed case, per-operation credential switches; monitor on the backend call log: every Chown/Lchown issued for a request whose effective uid (reference squash function) is not 0 carries exactly the caller's effective uid/gid; after a successful CREATE/MKDIR/SYMLINK the new inode's owner in the backend is the caller's effective identity; non-trivial = at least one operation; distinct by event digest",
+	seqProp("C11", "one case = a history of 8-28 CREATE/MKDIR/SYMLINK/SETATTR calls with sattr3 uid/gid set to foreign ids, issued under drawn credentials (boundary uids/gids, 0-16 aux gids, AUTH_NONE) and squash modes in mixed case, per-operation credential switches; monitor on the backend call log: every Chown/Lchown issued for a request whose effective uid (reference squash function) is not 0 carries exactly the caller's effective uid/gid; after a successful CREATE/MKDIR/SYMLINK the new inode's owner in the backend is the caller's effective identity; a quarter of the cases inject backend errors (chtimes, chmod, lstat, stat, truncate, close - not the chown itself) so that recovery paths run under the same monitor; non-trivial = at least one operation; distinct by event digest",
 		genC11, "C11.")
-	seqProp("C12", "one case = a history in which root SETATTRs mode (all 12 bits) and owner of files and directories and callers in drawn owner/group/aux-group/other relations (and uid 0) issue ACCESS with all 64 masks, with the attribute TTL and think time drawn (so ACCESS is answered from cached or fresh attributes) and read-only switched on at runtime in 30% of runs; oracle on every ACCESS reply of every workload: granted subset of requested and equal to the UNIX owner/group/other rule applied to the mode/uid/gid carried in that reply and the caller's effective identity, LOOKUP/DELETE only on directories, no MODIFY/EXTEND/DELETE when read-only; stratified sampling of the 4096 x classes x 64 x 2 space (not exhausted); non-trivial = at least one ACCESS; distinct by event digest",
+	seqProp("C12", "one case = a history in which root SETATTRs mode (all 12 bits) and owner of files and directories and callers in drawn owner/group/aux-group/other relations (and uid 0) issue ACCESS with all 64 masks, with the attribute TTL and think time drawn (so ACCESS is answered from cached or fresh attributes) and read-only switched on at runtime in 30% of runs; oracle on every ACCESS reply of every workload: granted subset of requested and equal to the UNIX owner/group/other rule applied to the mode/uid/gid carried in that reply and the caller's effective identity, LOOKUP/DELETE only on directories, no MODIFY/EXTEND/DELETE when read-only; 20% of the cases make a SETATTR fail half-way and then the backend's lstat fail for good: an ACCESS that still answers NFS3_OK must have decided on the object's real mode and owner; stratified sampling of the 4096 x classes x 64 x 2 space (not exhausted); non-trivial = at least one ACCESS; distinct by event digest",
 		mixGen(genC12, 80, "C12"), "C12.")
 	seqProp("C25", "one case = a C01-style WRITE/SETATTR(size)/READ history with MaxFileSize in {1,100,1000,4096,5000,10000} set at construction (60%) or by UpdateExportOptions in mid-history (40%), offsets and sizes biased to the limit +-2; oracle: a WRITE or SETATTR(size) that would grow a file beyond the limit gets NFS3ERR_FBIG and leaves the file unchanged (backend == byte-array model after every operation), requests within the limit succeed as without it; non-trivial = at least one operation; distinct by event digest",
 		genC25, "C25.")
